@@ -29,6 +29,8 @@ RULES = {
     "C02-D1": "class dispatch is total over {0,1,2,3} and agrees with the dimension each class passes to Mesh.__init__; containers are exposed by the same thresholds",
     "C02-H1": "hard-edge flagging must not run again on data that already went through prepare() (only declared edges are hard; rebuilding changes nothing)",
     "C02-M1": "prepare(): prepared flag tested first and set last; face completion before edge completion before normalisation / corner generation",
+    "C02-A1": "from_arrays: vertices are padded to exactly three columns (other widths rejected), every index array is range-checked against "
+              "the vertex count and appended to the container of its own kind, under `is not None`",
     "C02-C1": "corner generation emits one record (element, owner) per incidence in element order",
 }
 
@@ -53,6 +55,7 @@ def run(ctx):
     h2_hard_edges_typestate(ctx)
     m1_prepare_order(ctx)
     c1_corner_generation(ctx)
+    a1_from_arrays(ctx)
 
 
 # ---------------------------------------------------------------------------- P1
@@ -626,3 +629,63 @@ def c1_corner_generation(ctx):
     ctx.check(oka, "C02-C1", site, "_generate_cell_faces: the owner cell is not recorded unconditionally for each table face",
               "cell_faces must hold one (face, cell) record per cell-face incidence; without the owner, cell_faces.adj() and "
               "attributes on cell faces are unusable")
+
+
+# ---------------------------------------------------------------------------- A1
+def a1_from_arrays(ctx):
+    fn = ctx.repo.func(MESH, "from_arrays")
+    site = ctx.site(MESH, fn)
+    ps = au.params(fn)
+    V = ps[0]
+    b = sym.Bindings(fn)
+    # padding
+    pad_ok = rej_ok = False
+    for st in fn.body:
+        if isinstance(st, ast.If) and isinstance(st.test, ast.Compare) and au.src(st.test.left) == f"{V}.shape[1]":
+            try:
+                w, _ = order.compare(st.test, "w < 3", lambda node: "w" if au.src(node) == f"{V}.shape[1]" else (_ for _ in ()).throw(order.Unsupported("x")))
+            except order.Unsupported:
+                w = True
+            pads = [c for c in au.calls(st.body) if au.call_tail(c) == "pad"]
+            if w is None and pads and len(pads[0].args) >= 2:
+                widths = au.src(pads[0].args[1]).replace(" ", "")
+                pad_ok = widths == f"((0,0),(0,3-{V}.shape[1]))"
+            for el in st.orelse:
+                if isinstance(el, ast.If):
+                    try:
+                        w2, _ = order.compare(el.test, "w != 3", lambda node: "w" if au.src(node) == f"{V}.shape[1]" else (_ for _ in ()).throw(order.Unsupported("x")))
+                    except order.Unsupported:
+                        w2 = True
+                    rej_ok = w2 is None and any(isinstance(x, ast.Raise) for x in el.body)
+    ctx.check(pad_ok and rej_ok, "C02-A1", site, "from_arrays does not pad narrower vertex arrays to three columns and reject wider ones",
+              "the finished object must have 3-D vertices", note="pad to 3 / reject others")
+    nv = None
+    for st in fn.body:
+        for name, val in sym.split_assign(st):
+            if au.src(val) == f"{V}.shape[0]":
+                nv = name
+    kinds = {"edges": None, "faces": None, "cells": None}
+    for st in fn.body:
+        if isinstance(st, ast.If) and isinstance(st.test, ast.Compare) and isinstance(st.test.ops[0], ast.IsNot) \
+                and isinstance(st.test.left, ast.Name) and au.const(st.test.comparators[0]) is None and st.test.left.id in ps:
+            arr = st.test.left.id
+            adds = [s_ for s_ in st.body if isinstance(s_, ast.AugAssign) and isinstance(s_.target, ast.Attribute) and s_.target.attr in kinds]
+            checks = [s_ for s_ in st.body if isinstance(s_, ast.If) and any(isinstance(x, ast.Raise) for x in s_.body)]
+            rng = False
+            for c in checks:
+                for n in au.walk(c.test):
+                    if isinstance(n, ast.Compare) and isinstance(n.ops[0], ast.GtE) and au.src(n.comparators[0]) == nv \
+                            and arr in au.names(n.left):
+                        rng = True
+            if len(adds) == 1:
+                payload = adds[0].value
+                while isinstance(payload, ast.Call) and au.call_tail(payload) in ("list", "tuple") and len(payload.args) == 1:
+                    payload = payload.args[0]
+                before = all(c.lineno < adds[0].lineno for c in checks)
+                kinds[adds[0].target.attr] = (arr, au.src(payload) == arr, rng and before)
+    expect = dict(zip(("edges", "faces", "cells"), ps[1:4]))
+    for k, arr in expect.items():
+        got = kinds.get(k)
+        ctx.check(got is not None and got[0] == arr and got[1] and got[2], "C02-A1", site,
+                  f"from_arrays: the `{arr}` array is not range-checked (index >= number of vertices rejected) and appended to `{k}`",
+                  f"found {got}; an index array must land in the container of its own kind", note=f"{arr} -> {k}, range-checked")
